@@ -450,21 +450,31 @@ def planVehicles (ops : BatOps α B) (env : PEnv α) (w : PWorld α B) :
         let (more, ts'', peak'') ← planVehicles ops env w rest ts' peak'
         .ok ((pv, sched) :: more, ts'', peak'')
 
-/-- "use surplus power to charge above desired soc": the final loop over the vehicles -/
-def chargeVehicles (ops : BatOps α B) (ts0Power : α) :
-    List (PVeh α B × α) → PWorld α B × GcS α × List (String × α) → Py (PWorld α B × GcS α × List (String × α))
-  | [], st => .ok st
-  | (pv, sched) :: rest, (w, gc, cmds) =>
-    let sched := sched - pymin ts0Power 0
-    if 0 < sched then
-      match pv.v.cs with
-      | none => .error .keyError
-      | some csId => do
+/-- "use surplus power to charge above desired soc": the final loop over the vehicles (REPAIRED, fixes/PLW2.diff):
+the surplus `-min(timesteps[0]["power"], 0)` is handed out once, vehicle by vehicle, through `clamp_power`; a
+vehicle's plan is never reduced (`max(clamp_power(planned + surplus, …), planned)`); what a vehicle draws beyond
+its plan (`max(p - max(planned, 0), 0)`) is no longer available to the others.
+(pinned commit: `vehicle.schedule -= min(timesteps[0]["power"], 0)` for EVERY vehicle, unclamped — finding D6) -/
+def chargeVehicles (ops : BatOps α B) :
+    List (PVeh α B × α) → α → PWorld α B × GcS α × List (String × α) → Py (PWorld α B × GcS α × List (String × α))
+  | [], _, st => .ok st
+  | (pv, planned) :: rest, surplus, (w, gc, cmds) =>
+    match pv.v.cs with
+    | none => .error .keyError
+    | some csId => do
+      let sched ← (if 0 < surplus then
+          match w.station? csId with
+          | none => (.error .keyError : Py α)
+          | some cs => .ok (pymax (clampPower (planned + surplus) cs.currentPower cs.maxPower cs.minPower
+              pv.v.minChargingPower) planned)
+        else .ok planned)
+      if 0 < sched then do
         let (bat', p) ← ops.load pv.v.bat none none (some sched)
         let w := w.setVehicle { pv with v := { pv.v with bat := bat' }, schedule := some sched }
-        chargeVehicles ops ts0Power rest (w, (gc.addLoad csId p).1, sdSet cmds csId p)
-    else
-      chargeVehicles ops ts0Power rest (w.setVehicle { pv with schedule := some sched }, gc, cmds)
+        chargeVehicles ops rest (surplus - pymax (p - pymax planned 0) 0)
+          (w, (gc.addLoad csId p).1, sdSet cmds csId p)
+      else
+        chargeVehicles ops rest surplus (w.setVehicle { pv with schedule := some sched }, gc, cmds)
 
 /-- `PeakLoadWindow.step_gc(gc_id, gc)` ↦ (world', charging_stations) -/
 def stepGc (ops : BatOps α B) (env : PEnv α) (w : PWorld α B) (g : PGc α) (level : String) :
@@ -488,8 +498,11 @@ def stepGc (ops : BatOps α B) (env : PEnv α) (w : PWorld α B) (g : PGc α) (l
   let sorted := sortByKey (fun (pv : PVeh α B) => pv.v.etd.getD nowI) vehicles
   let (plans, timesteps, _) ← planVehicles ops env w sorted timesteps g.peak
   let ts0 ← getAt timesteps 0
-  let (w, gc, cmds) ← chargeVehicles ops ts0.power plans (w, g.gc, [])
-  let (gcLoads, info) ← bats.foldlM (planBattery ops env window g.peak gc.curMax untilChange) (gc.loads, [])
+  let (w, gc, cmds) ← chargeVehicles ops plans (-(pymin ts0.power 0)) (w, g.gc, [])
+  -- REPAIRED (fixes/PLW1.diff): inside a window the batteries work against `min(self.peak_power, cur_max_power)`
+  -- (pinned commit: against `self.peak_power`)
+  let (gcLoads, info) ← bats.foldlM (planBattery ops env window (pymin g.peak gc.curMax) gc.curMax untilChange)
+    (gc.loads, [])
   let (gc, _, done) ← bats.foldlM (applyBattery ops env info) (gc, gcLoads, [])
   let w := done.foldl (fun w b => w.setBattery b) w
   let peak := if window then pymax g.peak gc.currentLoad else g.peak
